@@ -447,6 +447,16 @@ func genC03(c *Cfg, emit func([]string)) {
 						t.fn = "echoB"
 						add(t)
 					}
+					if route == "task" {
+						add(clone(mk("task2", kt, nsign, ab[0], ab[1]).r, "none")) // positive control of the two-task route
+					}
+					// the nonce written differently but denoting the same number
+					for _, z := range []string{"0", "000"} {
+						y := mk(route, kt, nsign, ab[0], ab[1])
+						t := clone(y.r, "nonce-leading-zeros")
+						t.args[5] = z + t.args[5]
+						add(t)
+					}
 					// re-target: same bytes sent to another chaincode / channel
 					for _, env := range [][2]string{{"other", "vt"}, {"vt", "other"}, {"v", "tvt"}, {"vtv", "t"},
 						{"VT", "vt"}, {"vt", "VT"}, {"Vt", "vT"}, {"vt_", "vt"}, {"vt", "vt2"}, {"ｖｔ", "vt"}} {
@@ -454,12 +464,19 @@ func genC03(c *Cfg, emit func([]string)) {
 						t := clone(y.r, "retarget")
 						t.envcc, t.envch = env[0], env[1]
 						add(t)
+						if route == "task" {
+							// ... and as the second task behind somebody else's valid request for this chaincode
+							y2 := mk("task2", kt, nsign, ab[0], ab[1])
+							t2 := clone(y2.r, "retarget")
+							t2.envcc, t2.envch = env[0], env[1]
+							add(t2)
+						}
 					}
 				}
 			}
 		}
 	}
 	flush()
-	c.Rule = fmt.Sprintf("%d requests: correctly signed requests of a 2-argument sender-requiring method (3 value pairs, 1 and 2 signers, 3 routes%s) mutated by every operator at every covered field position (request id, chaincode, channel, both method arguments, nonce, each signer key): substitute same/different length, truncate, extend, swap neighbours, move 1..k bytes across each adjacent boundary (both directions; for chaincode/channel names the peer is deployed under the shifted names), drop, duplicate, re-order signers, other function of the same shape, re-target to other chaincode/channel names incl. pairs with equal concatenation and names differing only in letter case, a suffix or Unicode width; untouched requests as positive controls. non-trivial = every request; distinct = sha256", count, map[bool]string{true: ", 3 key types", false: ""}[c.Thorough()])
+	c.Rule = fmt.Sprintf("%d requests: correctly signed requests of a 2-argument sender-requiring method (3 value pairs, 1 and 2 signers, 3 routes%s) mutated by every operator at every covered field position (request id, chaincode, channel, both method arguments, nonce, each signer key): substitute same/different length, truncate, extend, swap neighbours, move 1..k bytes across each adjacent boundary (both directions; for chaincode/channel names the peer is deployed under the shifted names), drop, duplicate, re-order signers, other function of the same shape, the nonce with leading zeros, re-target to other chaincode/channel names (alone and as the second task of a list whose first task is valid) incl. pairs with equal concatenation and names differing only in letter case, a suffix or Unicode width; untouched requests as positive controls. non-trivial = every request; distinct = sha256", count, map[bool]string{true: ", 3 key types", false: ""}[c.Thorough()])
 	c.Extra = map[string]any{"requests": count}
 }
